@@ -145,7 +145,8 @@ def run(ctx):
             c0.executemany('INSERT INTO t VALUES (?, ?)', prior)
             c0.commit()
             c0.close()
-            src = Source(rows, fail, [Boom, BoomType, BoomBase][n % 3])
+            # the fourth kind: what a source reading another, busy database raises
+            src = Source(rows, fail, [Boom, BoomType, BoomBase, (lambda: sqlite3.OperationalError('database is locked'))][n % 4])
             fn = etl.todb if trunc else etl.appenddb
             conn = None
             raised = None
@@ -158,6 +159,8 @@ def run(ctx):
                     fn(src, dbo, 't', commit=commit)
             except (Boom, BoomBase):
                 raised = 'Boom'
+            except sqlite3.OperationalError as e:
+                raised = 'Boom' if (str(e) == 'database is locked' and fail is not None and n % 4 == 3) else type(e).__name__
             except Exception as e:   # noqa
                 raised = type(e).__name__
             seen = fresh_contents(path)
